@@ -797,6 +797,27 @@ impl Catalog {
         Ok(())
     }
 
+    /// The transaction that wrote the entry the name index holds for `name`, whoever can see it
+    /// (`None` also for an entry its own writer has delete-marked: created and dropped again).
+    pub(crate) fn name_entry_creator(
+        &self,
+        name: &str,
+        builder: &BtreeBuilder,
+    ) -> CatalogResult<Option<TransactionId>> {
+        let schema = meta_index_schema();
+        let mut meta_index = builder.build_tree(self.meta_index);
+        let name = Blob::from(name);
+        match meta_index.search(name.as_ref(), &schema)? {
+            SearchResult::Found(pos) => Ok(meta_index.with_cell_at(pos, |bytes| {
+                Tuple::from_slice_unchecked(bytes)
+                    .ok()
+                    .filter(|tuple| tuple.xmax() != Some(tuple.xmin()))
+                    .map(|tuple| tuple.xmin())
+            })?),
+            SearchResult::NotFound(_) => Ok(None),
+        }
+    }
+
     /// Gets a relation id from the meta index, looking up by name
     pub(crate) fn bind_relation(
         &self,
